@@ -140,6 +140,9 @@ Section WProg.
     | _, _ => False
     end.
 
+  Lemma realizes_ext u f g : (forall args s, f args s = g args s) -> realizes u f -> realizes u g.
+  Proof. intros E H d g0 args nx h W. rewrite <- E. apply H. exact W. Qed.
+
   (* ---------------------------------------------------------------- rows *)
   Lemma rows_sim d (c : mcode) h g0 args (r_env : env) nx : wf h ->
     forall rows (e : fr) fa fe ys rf,
@@ -295,3 +298,42 @@ Section WProg.
           (fun n => minext n d h (w_query name args nx)).
   Proof. intros W. apply (call_ok_w d 0 name args nx h W). Qed.
 End WProg.
+
+(* ------------------------------------------------------------------------------------------------
+   for every COMPILED program (RefineCompiled.compiled_ir_ok), stated over the parts of the world *)
+Definition mkw (ir : ir_program) (ffix : str -> nat -> option nfun) (fvar : str -> option nfun)
+    (dyn : str -> nat -> list frow) : world := {| w_ir := ir; w_fix := ffix; w_var := fvar; w_dyn := dyn |}.
+
+Theorem compiled_machine_refines_nquery p ir : compile_program p = Some ir ->
+  forall (dyn : str -> nat -> list frow) (ufix : str -> nat -> option ucode) (uvar : str -> option ucode)
+         (ffix : str -> nat -> option nfun) (fvar : str -> option nfun),
+  (forall name k, orealizes ir dyn ufix uvar (ufix name k) (ffix name k)) ->
+  (forall name, orealizes ir dyn ufix uvar (uvar name) (fvar name)) ->
+  forall d name args nx h k, wf h ->
+  exists N hf itf, forall n, N <= n ->
+    w_nexts ir dyn ufix uvar n d k h (w_query ir dyn ufix uvar name args nx) =
+    Some (hf, itf, map sto (firstn k (fst (nquery d (mkw ir ffix fvar dyn) name args (mkst h nx)))),
+          if Nat.leb k (length (fst (nquery d (mkw ir ffix fvar dyn) name args (mkst h nx)))) then RYield
+          else rend (snd (nquery d (mkw ir ffix fvar dyn) name args (mkst h nx))))
+    /\ (length (fst (nquery d (mkw ir ffix fvar dyn) name args (mkst h nx))) < k -> hf = h).
+Proof.
+  intros HC dyn ufix uvar ffix fvar Hf Hv.
+  apply (machine_refines_nquery ir dyn ufix uvar (mkw ir ffix fvar dyn) eq_refl (fun _ _ => eq_refl) Hf Hv).
+  eapply compiled_ir_ok; eauto.
+Qed.
+
+Theorem compiled_machine_refines_nquery_fuel p ir : compile_program p = Some ir ->
+  forall (dyn : str -> nat -> list frow) (ufix : str -> nat -> option ucode) (uvar : str -> option ucode)
+         (ffix : str -> nat -> option nfun) (fvar : str -> option nfun),
+  (forall name k, orealizes ir dyn ufix uvar (ufix name k) (ffix name k)) ->
+  (forall name, orealizes ir dyn ufix uvar (uvar name) (fvar name)) ->
+  forall d name args nx h k n hf itf ys r, wf h ->
+  w_nexts ir dyn ufix uvar n d k h (w_query ir dyn ufix uvar name args nx) = Some (hf, itf, ys, r) ->
+  ys = map sto (firstn k (fst (nquery d (mkw ir ffix fvar dyn) name args (mkst h nx)))) /\
+  r = (if Nat.leb k (length (fst (nquery d (mkw ir ffix fvar dyn) name args (mkst h nx)))) then RYield
+       else rend (snd (nquery d (mkw ir ffix fvar dyn) name args (mkst h nx)))).
+Proof.
+  intros HC dyn ufix uvar ffix fvar Hf Hv d name args nx h k n hf itf ys r.
+  apply (machine_refines_nquery_fuel ir dyn ufix uvar (mkw ir ffix fvar dyn) eq_refl (fun _ _ => eq_refl) Hf Hv).
+  eapply compiled_ir_ok; eauto.
+Qed.
